@@ -632,6 +632,8 @@ class Parser(object):
                              | TYPEOF unary_expr
                              | PLUSPLUS unary_expr
                              | MINUSMINUS unary_expr
+                             | LT_PLUSPLUS unary_expr
+                             | LT_MINUSMINUS unary_expr
                              | PLUS unary_expr
                              | MINUS unary_expr
                              | BNOT unary_expr
